@@ -2,7 +2,7 @@
 the REGION inliner that builds a super-graph of a public anchor with its private callees."""
 import copy
 import re
-from .core import Body, callee_name, norm
+from .core import Body, callee_name, norm, op_place
 
 _IDENT = re.compile(r"[A-Za-z_][A-Za-z0-9_]*(?:::[A-Za-z_][A-Za-z0-9_]*)*")
 
@@ -260,7 +260,7 @@ def private_only_policy(fx):
     return pol
 
 
-def inline_region(fx, root_key, depth=4, policy=None, desugar=True):
+def inline_region(fx, root_key, depth=4, policy=None, desugar=True, skip_root_sites=()):
     """Build a synthetic function (same JSON shape) in which calls to local functions selected by
     `policy` are replaced by the callee's CFG.  Recursion is cut (the call stays a call)."""
     policy = policy or default_inline_policy(fx)
@@ -302,37 +302,99 @@ def inline_region(fx, root_key, depth=4, policy=None, desugar=True):
                 continue
             if t["k"] != "call" or d <= 0:
                 continue
+            if fn is root and bi in skip_root_sites:
+                continue        # this call of the root function is deliberately left a call (one sibling instance at a time)
             if desugar and t.get("target") is not None and callee_name(t) in _DESUGAR and \
                     _desugar(fn, bi, nb, t, loff, boff, stack, d, inst):
                 continue
             ck = t.get("resolved_key") or t.get("callee_key")
-            if ck is None or ck not in fx.fns or ck in stack:
-                continue
-            if t.get("resolved_kind") == "Virtual":
-                continue
-            callee = fx.fns[ck]
-            if not policy(callee) or t.get("target") is None:
-                continue
+            direct = None
+            if desugar and norm(t.get("trait")) in _FN_TRAITS and len(t["args"]) == 2 and t.get("target") is not None:
+                # `let is_ok = |x| ..; is_ok(a)`: a closure bound to a local and called directly - the call is the closure's body
+                direct = _direct_closure(boff, n, t)
+            if direct is not None and direct[0]["key"] not in stack:
+                callee, call_args = direct
+                ck = callee["key"]
+                t = dict(t, args=call_args)
+            else:
+                if ck is None or ck not in fx.fns or ck in stack:
+                    continue
+                if t.get("resolved_kind") == "Virtual":
+                    continue
+                callee = fx.fns[ck]
+                if not policy(callee) or t.get("target") is None:
+                    continue
             if len(t["args"]) != callee["arg_count"]:
                 continue
             # allocate callee locals
             cl_off = len(new["locals"])
             for l in callee["locals"]:
                 new["locals"].append(dict(l))
+            n_before = len(new["blocks"])
+            subst = _generic_subst(callee, t)
             cinst = inst + "/" + callee["path"].split("::")[-1] + "@" + str(boff + bi)
             # bind parameters
             for ai, a in enumerate(t["args"]):
                 nb["stmts"].append({"k": "assign", "dst": {"l": cl_off + 1 + ai, "p": []},
                                     "rv": {"k": "use", "op": a}, "at": t["at"], "exp": None,
                                     "synthetic": "arg"})
-            cboff = emit(callee, cl_off, stack | {ck}, d - 1, ret_dst=t["dst"],
+            cboff = emit(callee, cl_off, stack | {ck}, (d if callee["kind"] == "Closure" else d - 1), ret_dst=t["dst"],
                          ret_target=t["target"], inst=cinst)
+            if subst:
+                _apply_subst(new, subst, cl_off, len(callee["locals"]), n_before)
             new["inlined"].append({"callee": callee["path"], "at_block": boff + bi, "inst": cinst,
                                    "site": t["at"]})
             nb["term"] = {"k": "goto", "target": cboff, "at": t["at"], "exp": None,
                           "synthetic": "inlined-call", "callee": t.get("callee"),
                           "callee_key": ck}
         return boff
+
+    def _direct_closure(boff, n, t):
+        """(closure fn, [env operand, arg operands..]) for `Fn::call(&c, (a, b))` where c is a local of this instance whose one
+        definition is a closure expression; None otherwise."""
+        def single(l):
+            # the whole region built so far: a closure handed to an inlined generic helper (`each(items, |x| ..)`) is defined in
+            # the caller's instance and reaches the helper's parameter through the synthetic argument binding
+            found = []
+            for blk in new["blocks"]:
+                if blk is None or blk["cleanup"]:
+                    continue
+                for st in blk["stmts"]:
+                    if st["k"] == "assign" and st["dst"]["l"] == l and not st["dst"]["p"]:
+                        found.append(st["rv"])
+                tt = blk["term"]
+                if tt and tt["k"] == "call" and tt["dst"]["l"] == l and not tt["dst"]["p"]:
+                    found.append(None)
+            return found[0] if len(found) == 1 else None
+        p0 = op_place(t["args"][0])
+        p1 = op_place(t["args"][1])
+        if p0 is None or p0["p"] or p1 is None or p1["p"]:
+            return None
+        l = p0["l"]
+        rv = None
+        for _ in range(5):
+            rv = single(l)
+            if rv is None:
+                return None
+            if rv["k"] == "agg" and rv.get("agg") == "closure":
+                break
+            if rv["k"] == "ref" and not rv["place"]["p"]:
+                l = rv["place"]["l"]
+            elif rv["k"] == "use" and op_place(rv["op"]) is not None and not op_place(rv["op"])["p"]:
+                l = op_place(rv["op"])["l"]
+            else:
+                return None
+        if rv is None or not (rv["k"] == "agg" and rv.get("agg") == "closure"):
+            return None
+        g = fx.fns.get(rv.get("closure_key"))
+        tv = single(p1["l"])
+        if g is None or tv is None or not (tv["k"] == "agg" and tv.get("agg") == "tuple"):
+            return None
+        env_is_ref = g["locals"][1]["ty"].startswith("&")
+        arg_is_ref = ((t.get("arg_tys") or [""])[0]).startswith("&")
+        if env_is_ref != arg_is_ref or g["arg_count"] != 1 + len(tv["ops"]):
+            return None
+        return g, [t["args"][0]] + list(tv["ops"])
 
     # ---- internal iteration and Option / Result combinators taking a closure (or a local fn item) are rewritten into the
     # ---- control flow they stand for, with the closure body inlined: `it.for_each(f)` becomes the loop `while let
@@ -839,7 +901,102 @@ def inline_region(fx, root_key, depth=4, policy=None, desugar=True):
 
     emit(root, 0, {root_key}, depth)
     new["ret_locals"] = sorted(new.get("ret_locals", []))
+    if desugar:
+        _devirtualise(fx, new)
     return new
+
+
+_FN_TRAITS = ("std::ops::Fn", "std::ops::FnMut", "std::ops::FnOnce")
+
+
+def _generic_subst(callee, t):
+    """{type parameter name: the type this call site instantiates it with} for a generic local function."""
+    names = callee.get("generic_params") or []
+    actual = t.get("generics") or []
+    if not names or len(names) != len(actual):
+        return {}
+    out = {}
+    for nme, act in zip(names, actual):
+        if nme.startswith("'") or nme == act or not re.match(r"^[A-Za-z_][A-Za-z0-9_]*$", nme):
+            continue
+        out[nme] = act
+    return out
+
+
+def _apply_subst(new, subst, cl_off, n_locals, first_block):
+    """Rewrite the type parameter names in everything the just-inlined instance contributed (its locals' types, and the
+    generic arguments / argument types of its calls) - the MIR of a generic function is not monomorphic."""
+    rx = re.compile(r"(?<![A-Za-z0-9_:])(" + "|".join(re.escape(k) for k in sorted(subst, key=len, reverse=True)) + r")(?![A-Za-z0-9_])")
+    rep = lambda sx: rx.sub(lambda m: subst[m.group(1)], sx) if isinstance(sx, str) else sx
+    for l in new["locals"][cl_off:cl_off + n_locals]:
+        l["ty"] = rep(l["ty"])
+    for blk in new["blocks"][first_block:]:
+        if blk is None:
+            continue
+        t = blk.get("term")
+        if t and t["k"] == "call" and not t.get("_subst"):
+            for fld_ in ("generics", "arg_tys"):
+                if t.get(fld_):
+                    t[fld_] = [rep(x) for x in t[fld_]]
+            for fld_ in ("callee_full", "resolved_full"):
+                if t.get(fld_):
+                    t[fld_] = rep(t[fld_])
+        for st in blk["stmts"]:
+            rv = st.get("rv")
+            if isinstance(rv, dict):
+                for fld_ in ("pty", "ty"):
+                    if isinstance(rv.get(fld_), str):
+                        rv[fld_] = rep(rv[fld_])
+
+
+def _devirtualise(fx, new):
+    """A generic helper that is handed a function item (`index_by(items, PublicKey::key_id)`) calls it as `F::call(&f, (x,))`.
+    Once the helper is inlined the callee operand is a known function item: the indirect call is rewritten into the direct
+    call it is (not inlined further), so that rules looking for `PublicKey::key_id(..)` see it in both spellings."""
+    FN_TRAITS = ("std::ops::Fn", "std::ops::FnMut", "std::ops::FnOnce")
+    cand = [(i, blk["term"]) for i, blk in enumerate(new["blocks"]) if blk and blk["term"] and blk["term"]["k"] == "call" and not blk["cleanup"]
+            and norm(blk["term"].get("trait")) in FN_TRAITS and len(blk["term"]["args"]) == 2]
+    if not cand:
+        return
+    b = Body(new)
+    for (i, t) in cand:
+        if i not in b.reach:
+            continue
+        lv = b.trace(t["args"][0])
+        if len(lv) != 1 or lv[0].kind != "const" or not (lv[0].data.get("fn") or lv[0].data.get("fn_key")) or lv[0].path:
+            continue
+        c = lv[0].data
+        tp = op_place(t["args"][1])
+        d = b.single_def(tp["l"]) if tp is not None and not tp["p"] else None
+        if not (d and d.kind == "assign" and d.node["rv"]["k"] == "agg" and d.node["rv"].get("agg") == "tuple"):
+            continue
+        args = list(d.node["rv"]["ops"])
+        if c.get("fn_key") and "{constructor#" in c["fn_key"]:
+            # a tuple-struct / enum-variant constructor handed over as a function (`decode(value, Wrapper::V2)`): the call builds the value
+            pth = c.get("fn") or ""
+            ctor = None
+            if pth in fx.adts and len(fx.adts[pth]["variants"]) == 1:
+                ctor = (pth, fx.adts[pth]["variants"][0]["name"])
+            else:
+                par, _, var = pth.rpartition("::")
+                if par in fx.adts and any(v["name"] == var for v in fx.adts[par]["variants"]):
+                    ctor = (par, var)
+            if ctor is None or t.get("target") is None:
+                continue
+            new["blocks"][i]["stmts"].append({"k": "assign", "dst": t["dst"], "rv": {"k": "agg", "agg": "adt", "adt": ctor[0], "variant": ctor[1],
+                                              "fields": [str(x) for x in range(len(args))], "ops": args}, "at": t["at"], "exp": None, "synthetic": "devirtualised"})
+            new["blocks"][i]["term"] = {"k": "goto", "target": t["target"], "at": t["at"], "exp": None, "synthetic": "devirtualised"}
+            continue
+        g = fx.fns.get(c.get("fn_key")) if c.get("fn_key") else None
+        path = (g["path"] if g else c.get("fn")) or ""
+        if not path:
+            continue
+        nt = dict(t)
+        nt.update({"callee": path, "callee_full": path, "callee_key": c.get("fn_key"), "resolved_key": c.get("fn_key"), "resolved": path,
+                   "resolved_full": path, "trait": None, "generics": [], "args": args,
+                   "arg_tys": [new["locals"][op_place(a)["l"]]["ty"] if op_place(a) is not None and not op_place(a)["p"] else "?" for a in args],
+                   "callee_crate": "in_toto" if g else t.get("callee_crate"), "synthetic": "devirtualised"})
+        new["blocks"][i]["term"] = nt
 
 
 _DESUGAR = {
@@ -860,5 +1017,5 @@ def region_body(fx, root_path, depth=4, policy=None):
     return Body(inline_region(fx, f["key"], depth, policy))
 
 
-def region_of_key(fx, key, depth=4, policy=None):
-    return Body(inline_region(fx, key, depth, policy))
+def region_of_key(fx, key, depth=4, policy=None, skip_root_sites=()):
+    return Body(inline_region(fx, key, depth, policy, True, skip_root_sites))
